@@ -210,20 +210,24 @@ def run_case(case, ctx):
             import scipy.linalg as sl
             h = case["dt"] / nref
             Uh = sl.expm(L * h)
-            ref = numpy.zeros_like(data)
-            ref[0] = rho0
-            rho = rho0.copy()
-            S0 = None
-            for n in range(1, case["Nt"]):
-                tN = float(t.data[n - 1])
-                for jj in range(nref):
-                    tt = tN + jj * h
-                    rho = gksl.unvec(Uh @ gksl.vec(rho), dim)
-                    fac = numpy.exp(-G * h) if case["pdeph"] == "Lorentzian" else numpy.exp(-G * h * h / 2.0) * numpy.exp(-G * h * tt)
-                    if S0 is None:
-                        S0 = numpy.diag(fac.reshape(-1)) @ Uh
-                    rho = rho * fac
-                ref[n] = rho
+
+            def split_reference(Gm):
+                ref_ = numpy.zeros_like(data)
+                ref_[0] = rho0
+                rho = rho0.copy()
+                S0_ = None
+                for n in range(1, case["Nt"]):
+                    tN = float(t.data[n - 1])
+                    for jj in range(nref):
+                        tt = tN + jj * h
+                        rho = gksl.unvec(Uh @ gksl.vec(rho), dim)
+                        fac = numpy.exp(-Gm * h) if case["pdeph"] == "Lorentzian" else numpy.exp(-Gm * h * h / 2.0) * numpy.exp(-Gm * h * tt)
+                        if S0_ is None:
+                            S0_ = numpy.diag(fac.reshape(-1)) @ Uh
+                        rho = rho * fac
+                    ref_[n] = rho
+                return ref_, S0_
+            ref, S0 = split_reference(G)
             # stability constant of the split step map (decay factors only contract)
             Ms, P = 1.0, numpy.eye(dim * dim, dtype=complex)
             for k in range(min(case["Nt"] * nref, 400)):
@@ -233,6 +237,23 @@ def run_case(case, ctx):
             b = bounds * 4 * max(1.0, Ms / M) ** 2 + 1e-12
             i = int(numpy.argmax(err / b))
             ctx.check("lindblad+dephasing==split-expm", float(err[i]), float(b[i]), dict(det, index=i, Ms=Ms))
+            # the caller changes the dephasing rates of the PureDephasing object the propagator holds (in place, or by assigning a new
+            # array) and runs the same propagator again: the run follows the rates as they are now
+            G2 = G * 1.7 + 0.3 * float(numpy.max(G)) * (1.0 - numpy.eye(dim))
+            how_pd = ["in-place", "assigned"][case["seed"] % 2]
+            with ctx.lib("propagation after the dephasing rates were changed", mechanism=None):
+                with contextlib.redirect_stdout(io.StringIO()):
+                    pdo = kw["PDeph"]
+                    if how_pd == "in-place":
+                        pdd = pdo.data
+                        pdd[:, :] = G2
+                    else:
+                        pdo.data = G2.copy()
+                    data2 = numpy.array(prop.propagate(qr.ReducedDensityMatrix(data=rho0.copy()), method=case["method"], Nref=nref).data)
+            ref2, _S = split_reference(G2)
+            err2 = numpy.sqrt(numpy.sum(numpy.abs(data2 - ref2) ** 2, axis=(1, 2)))
+            i2 = int(numpy.argmax(err2 / b))
+            ctx.check("lindblad+dephasing==split-expm", float(err2[i2]), float(b[i2]), dict(det, index=i2, what="same propagator after the dephasing rates were changed (" + how_pd + ")"))
             moved = float(numpy.max(numpy.abs(ref - rho0[None])))
             ctx.nontrivial(moved > 100 * float(b[-1]))
         ctx.key(("lindblad", dim, case["method"], nref, case["as_operators"], case["rwa"], case["pdeph"], case["state"], case["seed"]))
